@@ -28,6 +28,9 @@ pub struct ArmResult {
     pub log: Vec<String>,
     pub files: Vec<Vec<Vec<u8>>>,
     pub aborted: Option<String>,
+    /// per step, per (node, store): (digest of the bytes, digest up to trailing zeros)
+    #[serde(default)]
+    pub step_digests: Vec<Vec<(u64, u64)>>,
 }
 
 pub fn run_arm(spec: &ConfigSpec, arm: &Arm) -> ArmResult {
@@ -40,9 +43,32 @@ pub fn run_arm(spec: &ConfigSpec, arm: &Arm) -> ArmResult {
     let mut w = World::new(cfg);
     w.keep_trace_log = true;
     w.create_all();
-    w.run_steps(&spec.steps);
+    // every prefix of the history is a history: file bytes are compared after every step
+    let mut step_digests: Vec<Vec<(u64, u64)>> = vec![];
+    for (i, st) in spec.steps.iter().enumerate() {
+        if w.aborted.is_some() {
+            break;
+        }
+        w.cur_step = i as i64;
+        w.exec_step(st);
+        let mut row = vec![];
+        for n in 0..w.nodes.len() {
+            for f in w.files(n).iter() {
+                let mut exact = crate::rng::Digest::default();
+                exact.bytes(f);
+                let mut k = f.len();
+                while k > 0 && f[k - 1] == 0 {
+                    k -= 1;
+                }
+                let mut stripped = crate::rng::Digest::default();
+                stripped.bytes(&f[..k]);
+                row.push((exact.0, stripped.0));
+            }
+        }
+        step_digests.push(row);
+    }
     let files: Vec<Vec<Vec<u8>>> = (0..w.nodes.len()).map(|n| w.files(n).to_vec()).collect();
-    ArmResult { log: std::mem::take(&mut w.trace_log), files, aborted: w.aborted.clone() }
+    ArmResult { log: std::mem::take(&mut w.trace_log), files, aborted: w.aborted.clone(), step_digests }
 }
 
 fn nosparse_binary() -> Option<std::path::PathBuf> {
@@ -137,7 +163,36 @@ pub fn run_config(spec: &ConfigSpec) -> CaseOut {
             });
             continue;
         }
-        // bytes (same backend family or not: lengths and contents must agree, holes read as zeros)
+        // bytes after every step
+        let disk_inv = arm.backend == Backend::DiskFs || spec.arms[0].backend == Backend::DiskFs;
+        let mut step_diff = None;
+        for (i, (ra, rb)) in reference.step_digests.iter().zip(r.step_digests.iter()).enumerate() {
+            for (k, (a, b)) in ra.iter().zip(rb.iter()).enumerate() {
+                let eq = if disk_inv { a.1 == b.1 } else { a.0 == b.0 };
+                if !eq {
+                    step_diff = Some((i, k));
+                    break;
+                }
+            }
+            if step_diff.is_some() {
+                break;
+            }
+        }
+        if let Some((i, k)) = step_diff {
+            viols.push(Viol {
+                clause: "C14.bytes".into(),
+                step: i as i64,
+                msg: format!(
+                    "arm {:?}: after step {i} the {} file of node {} differs from reference {:?}",
+                    arm,
+                    crate::disk::STORE_NAMES[k % 4],
+                    k / 4,
+                    spec.arms[0]
+                ),
+            });
+            continue;
+        }
+        // final bytes (lengths and contents must agree, holes read as zeros)
         for (nidx, (fa, fb)) in reference.files.iter().zip(r.files.iter()).enumerate() {
             for s in 0..4 {
                 // A zero-length write at or beyond the end of file (appending an empty block)
